@@ -415,6 +415,7 @@ _EVALUATED_ALIAS = {
     'C11': ({'C11.range', 'C11.decl', 'C11.ports', 'C11.pins', 'C11.const', 'C11.names'}, 'C11.netlist'),
     'C18': ({'C18.chain', 'C18.rank', 'C18.order', 'C18.grammar'}, 'C18.maps'),
     'C14': ({'C14.accumulate', 'C14.triple'}, 'C14.records'),
+    'C13': ({'C13.accumulate', 'C13.count'}, 'C13.count'),
     'C20': ({'C20.positions', 'C20.options', 'C20.twins', 'C20.grammar'}, 'C20.extract'),
     'C09': ({'C09.ctor', 'C09.remove', 'C09.containers', 'C09.backref', 'C10.copy', 'C10.pickle', 'C10.elim', 'C10.pins', 'C10.keys', 'C10.names', 'C10.sub-shape'}, 'C09.history'),
     'C10': ({'C10.copy', 'C10.pickle', 'C10.elim', 'C10.pins', 'C10.keys', 'C10.names', 'C10.sub-shape', 'C10.resolve', 'C09.remove', 'C09.ctor'}, 'C10.function'),
